@@ -34,6 +34,7 @@ func c16(tier string) int {
 		{Name: "pool-sched", Params: "w=1", MaxBound: b},
 		{Name: "pool-stop-busy", MaxBound: b},
 		{Name: "pool-stop-busy-restart", MaxBound: b},
+		{Name: "pool-stop-deferring", MaxBound: b},
 		{Name: "pool-busy", Params: "w=1,k=4,s=1,l=1", MaxBound: b},
 		{Name: "pool-busy", Params: "w=1,k=3,s=1,l=1", MaxBound: 3},
 		{Name: "pool-busy", Params: "w=1,k=4,s=2,l=0", MaxBound: b},
@@ -41,6 +42,7 @@ func c16(tier string) int {
 	}
 	if tier == "thorough" {
 		items = append(items,
+			conc.Item{Name: "pool-stop-busy-restart", Params: "main=1", MaxBound: 2},
 			conc.Item{Name: "pool-busy", Params: "w=2,k=5,s=1,l=1", MaxBound: 2},
 			conc.Item{Name: "pool-busy", Params: "w=1,k=5,s=3,l=1", MaxBound: 2},
 			conc.Item{Name: "pool-stop", Params: "w=2,k=3,g=1", MaxBound: 2},
